@@ -1,10 +1,13 @@
-(* C04 - the ZINC writer emits well-formed ZINC.  PARTIAL: proved: the document starts with the header
-   ver:"X" whose X is the escaped version text; string and URI literals hold only characters >= U+0020,
-   only escapes the grammar's character rule accepts, and end at their own closing quote; non-finite
-   numbers are spelled INF, -INF, NaN; 3.0-only kinds are refused under 2.0.  The line / cell layout of
-   whole grids is checked by the independent reader (harness/zincspec.py) on every dumped grid. *)
+(* C04 - the ZINC writer emits well-formed ZINC.  Proved: the document is header line, column line, one line
+   per row and a final newline; every row line holds exactly one cell per column; no line and no cell holds
+   a character below U+0020 (so no newline inside a line), for every grid without nested grids whose
+   verbatim tokens (names, units, number tokens) are clean; the header is ver:"X" with X the escaped version
+   text; string and URI literals hold only escapes the grammar's character rule accepts and end at their own
+   closing quote; non-finite numbers are spelled INF, -INF, NaN; 3.0-only kinds are refused under 2.0.
+   PARTIAL: conformance of whole documents to the Haystack grammar is judged by the independent reader
+   (harness/zincspec.py) on every dumped grid, not proved against a grammar relation. *)
 From Coq Require Import String.
-From Coq Require Import List NArith Bool.
+From Coq Require Import List NArith ZArith Bool.
 From HS Require Import Base.Prelude Model.Value Model.Escape Model.Version Model.Json Model.ZincDump Model.ZincParse.
 From HS Require Import Proofs.EscapeP Proofs.ZincParseP Proofs.ZincDumpP.
 Import ListNotations.
@@ -39,6 +42,39 @@ Theorem C04_version_gate : forall f l d en tx,
   zdump (S f) true VNA = Raise ValueError /\ zdump (S f) true (VXStr en tx) = Raise ValueError.
 Proof. intros. repeat split; reflexivity. Qed.
 
+(* layout: t = header NL columns NL row1 NL ... rowN NL; one cell per column in every row line; nothing
+   below U+0020 inside a line *)
+Theorem C04_layout : forall f ver meta cols rows t,
+  zdump_grid (S f) ver meta cols rows = Ok t ->
+  wf_tags f meta ->
+  Forall (fun c => clean (fst c) /\ wf_tags f (snd c)) cols ->
+  Forall (fun row => Forall (fun c => wfv f (cell_of c row)) cols) rows ->
+  exists header colline rowlines,
+    t = join NL1 ([header; colline] ++ rowlines ++ [[]]) /\
+    clean header /\ clean colline /\
+    Forall2 (fun row line => exists cells, line = join [44] cells /\ length cells = length cols /\ Forall clean cells) rows rowlines.
+Proof. exact zdump_grid_layout. Qed.
+(* every scalar the writer emits for a clean value is free of control characters *)
+Theorem C04_scalar_clean : forall f p v t, wfv f v -> zdump f p v = Ok t -> clean t.
+Proof. exact zdump_clean. Qed.
+(* non-vacuity: a grid with strings full of metacharacters, a list, a reference with display name satisfies the hypotheses *)
+Example C04_layout_applies :
+  let rows := [[(s_ "a", VStr [34; 10; 44]); (s_ "b", VRef (s_ "r-1") (Some [36; 10]))]; [(s_ "b", VList [VMarker; VUri [96; 10]])]] in
+  let cols := [(s_ "a", []); (s_ "b", [(s_ "dis", VStr [10])])] in
+  wf_tags 3 [(s_ "m", VMarker)] /\
+  Forall (fun c => clean (fst c) /\ wf_tags 3 (snd c)) cols /\
+  Forall (fun row => Forall (fun c => wfv 3 (cell_of c row)) cols) rows /\
+  exists t, zdump_grid 4 (s_ "3.0") [(s_ "m", VMarker)] cols rows = Ok t.
+Proof.
+  cbv zeta. split; [|split; [|split]].
+  - repeat constructor; cbv; discriminate.
+  - repeat constructor; cbv; discriminate.
+  - repeat constructor; cbv; discriminate.
+  - eexists. vm_compute. reflexivity.
+Qed.
+
+Print Assumptions C04_layout.
+Print Assumptions C04_scalar_clean.
 Print Assumptions C04_header.
 Print Assumptions C04_nonfinite.
 Print Assumptions C04_string_literal.
